@@ -37,7 +37,7 @@ func init() {
 	RegisterSub("C17", "crossbuild", RunC17CrossBuild)
 }
 
-const c17Rule = "history: catalogue struct types x random rows x random writer configuration (gen.RandWriterCfg + bloom filters, deferred blooms, key/value metadata, declared sorting columns, forced dictionary overflow) x instance history: the file written by an instance that was Reset after {abandoned, abandoned after row-by-row writes, flushed, closed, closed empty, failed sink, two generations, reset mid-file, random op sequence, SetKeyValueMetadata} over OTHER rows must equal byte-for-byte the file of a fresh instance; instances GenericWriter, Writer, SortingWriter, GenericBuffer/Buffer.Reset -> WriteRowGroup; repeated fresh writes on the same and on 3 other goroutines, and with the key/value options permuted; non-trivial = non-empty rows and a prior history that wrote rows. crossbuild: per catalogue type seeded (rows, config, write path) cases and 30k/400k encoder inputs (hybrid RLE int32/levels, delta binary packed, byte stream split), big-page files (one PLAIN column per numeric kind, pages filled to the default 256 KiB target and beyond, values across 2^31 / 2^63, NaN, -0.0) and Page.Bounds of pages at the kernel-switch lengths 32112..131071(..262144) whose sha256 / output bytes the asm and purego builds must agree on (digests exchanged through .build/out/C17-digests-<variant>.json); non-trivial = more than one row / at least 8 values. mirror (L2): a real Writer under a random history vs the Lean mirror (reset.run), observation compared after every step; all cases non-trivial."
+const c17Rule = "history: catalogue struct types x random rows x random writer configuration (gen.RandWriterCfg + bloom filters, deferred blooms, key/value metadata, declared sorting columns, forced dictionary overflow) x instance history: the file written by an instance that was Reset after {abandoned, abandoned after row-by-row writes, flushed, closed, closed empty, failed sink, two generations, reset mid-file, random op sequence, SetKeyValueMetadata} over OTHER rows (for SortingWriter + DropDuplicatedRows also over copies of the row that sorts first in the new content, run sizes 1 / random / > rows) must equal byte-for-byte the file of a fresh instance; instances GenericWriter, Writer, SortingWriter, GenericBuffer/Buffer.Reset -> WriteRowGroup; repeated fresh writes on the same and on 3 other goroutines, and with the key/value options permuted; non-trivial = non-empty rows and a prior history that wrote rows. crossbuild: per catalogue type seeded (rows, config, write path) cases and 30k/400k encoder inputs (hybrid RLE int32/levels, delta binary packed, byte stream split), big-page files (one PLAIN column per numeric kind, pages filled to the default 256 KiB target and beyond, values across 2^31 / 2^63, NaN, -0.0) and Page.Bounds of pages at the kernel-switch lengths 32112..131071(..262144) whose sha256 / output bytes the asm and purego builds must agree on (digests exchanged through .build/out/C17-digests-<variant>.json); non-trivial = more than one row / at least 8 values. mirror (L2): a real Writer under a random history vs the Lean mirror (reset.run), observation compared after every step; all cases non-trivial."
 
 // ---------------------------------------------------------------- configuration
 
@@ -58,7 +58,8 @@ type c17Cfg struct {
 	deferBloom bool
 	kv         [][2]string
 	sorting    []c17Sort
-	overflow   int // > 0: DictionaryMaxBytes(16) and this PageBufferSize override the base options
+	dedupe     bool // DropDuplicatedRows(true) next to the sorting columns (sorting writers)
+	overflow   int  // > 0: DictionaryMaxBytes(16) and this PageBufferSize override the base options
 	desc       string
 }
 
@@ -163,7 +164,11 @@ func (c *c17Cfg) opts() []parquet.WriterOption {
 		o = append(o, parquet.KeyValueMetadata(kv[0], kv[1]))
 	}
 	if len(c.sorting) > 0 {
-		o = append(o, parquet.SortingWriterConfig(parquet.SortingColumns(c17SortingColumns(c.sorting)...)))
+		so := []parquet.SortingOption{parquet.SortingColumns(c17SortingColumns(c.sorting)...)}
+		if c.dedupe {
+			so = append(so, parquet.DropDuplicatedRows(true))
+		}
+		o = append(o, parquet.SortingWriterConfig(so...))
 	}
 	return o
 }
@@ -617,6 +622,15 @@ func c17HistoryCase(ctx *core.Ctx, e *gen.Entry, r *rand.Rand, sample bool) {
 		if kind == c17Refl {
 			kbatches = nil // Writer.Write takes one row at a time; Flush positions are kept out
 		}
+		if kind == c17Sorting {
+			c17DedupeBoundary(ctx, e, r, kcfg, rows, sortRows, compare)
+			if r.Intn(2) == 0 {
+				c2 := *kcfg
+				c2.dedupe = true
+				c2.desc += " +dedupe"
+				kcfg = &c2
+			}
+		}
 		ref, err, _ := c17Run(kind, e, kcfg, sortRows, nil, prior, rows, kbatches)
 		if err != nil {
 			ctx.Hist("reference-write-error", kind+" "+errClass(err))
@@ -704,6 +718,50 @@ func c17HistoryCase(ctx *core.Ctx, e *gen.Entry, r *rand.Rand, sample bool) {
 		got, err := c17BufferFile(kind, e, cfg, true, prior, rows)
 		ctx.Hist("history", kind+" reset-after-prior-rows")
 		compare("buffer-reuse-after-reset", kind, ref, got, err, map[string]any{"history": "write prior rows; sort; Reset; write rows; sort; WriteRowGroup"})
+	}
+}
+
+// c17DedupeBoundary: a SortingWriter with DropDuplicatedRows(true) reused through Reset, where the
+// EARLIER file consists of copies of the row that sorts FIRST in the new content (so the largest
+// key of the earlier file equals the smallest key of the new one, and the rows are equal across
+// the boundary): whatever the duplicate dropper remembers of the earlier file must not reach the
+// new one. Several sort-run sizes and ways of ending the earlier file.
+func c17DedupeBoundary(ctx *core.Ctx, e *gen.Entry, r *rand.Rand, base *c17Cfg, rows reflect.Value, sortRows int64,
+	compare func(what, kind string, ref []byte, got []byte, err error, extra map[string]any)) {
+	cfg := *base
+	cfg.dedupe = true
+	cfg.desc += " +dedupe"
+	n := rows.Len()
+	for _, run := range []int64{sortRows, 1, int64(n) + 1} {
+		ref, err, _ := c17Run(c17Sorting, e, &cfg, run, nil, rows, rows, nil)
+		if err != nil {
+			ctx.Hist("reference-write-error", "sorting-writer+dedupe "+errClass(err))
+			return
+		}
+		back, err := e.ReadAll(bytes.NewReader(ref), int64(len(ref)))
+		if err != nil || reflect.ValueOf(back).Len() == 0 {
+			ctx.Hist("dedupe-boundary", "skipped: reference unreadable or empty")
+			return
+		}
+		first := reflect.ValueOf(back).Index(0) // the row that sorts first in the new content
+		k := []int{1, 2, int(run) + 1}[r.Intn(3)]
+		prior := e.NewRows(k)
+		for i := 0; i < k; i++ {
+			prior.Index(i).Set(first)
+		}
+		all := fmt.Sprintf("w%d", k)
+		hs := []c17History{{"dedupe-boundary-closed", []string{all, "c"}}, {"dedupe-boundary-flushed", []string{all, "f"}},
+			{"dedupe-boundary-two-generations", []string{all, "c", "r", all, "f"}}}
+		h := hs[r.Intn(len(hs))]
+		got, err, _ := c17Run(c17Sorting, e, &cfg, run, &h, prior, rows, nil)
+		ctx.Hist("history", "sorting-writer "+h.class)
+		ctx.Hist("dedupe-boundary", fmt.Sprintf("run-size %s", map[bool]string{true: "1", false: map[bool]string{true: "> rows", false: "random"}[run > int64(n)]}[run == 1]))
+		if err != nil && strings.HasPrefix(err.Error(), "during the prior history") {
+			ctx.Hist("prior-history-panic", "sorting-writer "+errClass(errors.Unwrap(err)))
+			continue
+		}
+		compare("reuse-after-reset", c17Sorting, ref, got, err, map[string]any{"history": h.String(), "config": cfg.desc,
+			"sort_row_count": run, "earlier_content": fmt.Sprintf("%d copies of the row that sorts first in the new content", k)})
 	}
 }
 
